@@ -518,7 +518,7 @@ theorem bdraw_run (total view top : Int) (w h fuel : Nat) (ce : Bool) (hw : 1 â‰
 
 theorem play_run (segs : List (List Ch)) (s : Pager.St) (w h : Nat) (fe : Bool) (ht : segs.flatten = s.text) :
     runPager expB expB.pagerLayout segs s w h fe = some (Pager.relayout true s, blank w h) := by
-  have hl := play_exec (pagerRo expB segs w h) 0 (pagerM s w h fe) s.width rfl (by simp [pagerM, m0, lookup])
+  have hl := play_exec (pagerRo expB segs w h) rfl 0 (pagerM s w h fe) s.width rfl (by simp [pagerM, m0, lookup])
   unfold runPager
   have he : expB.pagerLayout = seqOf playParts := rfl
   rw [he]
